@@ -384,7 +384,18 @@ def run_history(arg):
                 steps.append({'status': 'cached-build-failed', 'error': hits})
                 break
             fn, diff = _first_diff(got, ref)
-            st = {'status': 'ok' if fn is None else 'mismatch', 'hits': hits, 'digest': _digest(ref), 'file': fn, 'diff': diff}
+            dir_dependent = False
+            if fn is not None and rd is not None:
+                # the shared reference was compiled in another directory: before blaming the cache, recompute the
+                # uncached output in THIS directory (output that depends on the directory is C42's business)
+                got_files = got
+                ref2, info2 = _build(tree, vec, modules, None)
+                if ref2:
+                    fn2, diff2 = _first_diff(got_files, ref2)
+                    dir_dependent = fn2 is None or ref2 != ref
+                    ref, fn, diff = ref2, fn2, diff2
+            st = {'status': 'ok' if fn is None else 'mismatch', 'hits': hits, 'digest': _digest(ref), 'file': fn, 'diff': diff,
+                  'dir_dependent': dir_dependent}
             if fn is not None:
                 # which earlier vector's output was served?
                 st['equals_earlier_step'] = [j for j, r in enumerate(refs) if r.get(fn) == got.get(fn)]
@@ -609,6 +620,7 @@ def run(ctx):
     no_effect = list(prescreened)
     effective = []
     hits_total = 0
+    dir_dependent = []
     outcome_kinds = set()
     for i, r in zip(order, res):
         h = hists[i]
@@ -624,6 +636,8 @@ def run(ctx):
                 rejected.append(label)
                 break
             hits_total += len(st.get('hits') or ())
+            if st.get('dir_dependent'):
+                dir_dependent.append(label)
             if st['status'] != 'ok':
                 c = ('base', '', '') if not si else h['comps'][0] if si in (1, 3) or len(h['comps']) == 1 else h['comps'][1]
                 cls = _classify(st, si)
@@ -686,6 +700,7 @@ def run(ctx):
         'components': len(hists) if ctx.quick else None,
         'components_changing_output': len(set(effective)), 'components_without_effect_on_probe': sorted(set(no_effect)),
         'components_rejected_by_compiler': sorted(set(rejected)),
+        'uncached_output_depends_on_directory': sorted(set(dir_dependent)),
         'uncovered_options': uncovered, 'skipped_options': OPTION_SKIP,
         'distinct_outcomes': sorted('%s/hit=%s' % o for o in outcome_kinds),
         'inline': istats, 'samples': samples, 'exhaustive': not only,
